@@ -36,6 +36,7 @@ def run(rep):
     os.environ['VERIF_TWIN'] = '0'
     os.environ['VERIF_ITEM'] = rep.get('item') or ''
     os.environ['VERIF_TIER'] = rep.get('tier', 'quick')
+    os.environ['VERIF_ASPECT'] = rep.get('property') or ''
     fixdir = os.environ.get('VERIF_FIXDIR')
     if fixdir and fixdir not in sys.path:
         sys.path.insert(0, fixdir)
@@ -45,6 +46,10 @@ def run(rep):
     try:
         ret = fn(**args)
     except Exception as e:
+        if getattr(e, 'verif_unreachable', False):
+            # the counterexample cannot be written as input of the public API: not a finding
+            print(json.dumps(dict(reproduced=False, unreachable=True, why=str(e)[:300])))
+            return 4
         out = dict(reproduced=True, kind='exception', exc_type=type(e).__name__, exc=str(e)[:500],
                    frame=innermost_stone_frame(e.__traceback__))
         print(json.dumps(out))
